@@ -1,5 +1,5 @@
 """Translation validation of one (rule set, option set): flex -> tables -> Lean validator."""
-import os, time, random, hashlib, subprocess
+import re, os, time, random, hashlib, subprocess
 from . import rules, flexrun, patgen
 
 TABLE_OPTS = [['-Cem'], ['-Ce'], ['-Cm'], ['-C'], ['-Cf'], ['-CF'], ['-Cfe'], ['-CFe'],
@@ -25,7 +25,8 @@ def validate_one(flex, workdir, name, rs, topt, lex_seed, budget=200000, keep=Fa
     opts = opts_for(rs, topt) + list(extra_opts)
     t0 = time.time()
     rc, so, se = flexrun.run_flex(flex, lf, cf, opts, timeout=flex_timeout)
-    res = {'name': name, 'opts': opts, 'lex': text, 'flex_rc': rc, 'flex_stderr': se[-2000:]}
+    res = {'name': name, 'opts': opts, 'lex': text, 'flex_rc': rc, 'flex_stderr': se[-2000:],
+           'x_groups': len(re.findall(r'\(\?[is]*x[is]*(?:-[is]+)?:', text))}
     if rc != 0:
         # -999: flex still running after flex_timeout seconds (DFA blow-up); counted, not judged
         res['status'] = 'slow' if rc == -999 else 'flexfail'
@@ -149,4 +150,6 @@ def features(rs):
         if any(e for _, e in rs.scs):
             bump('exclusive_sc')
     bump('rules', len(rs.rules))
+    if getattr(rs, 'posix_prec', False):
+        bump('posix_compat_precedence')
     return f
